@@ -8,6 +8,7 @@ The log is a list of tuples (seq, act, idx, kind, now, payload, k) where k is th
 activations started so far (the current one included) and idx is the
 step path (tuple) inside the activity.  Payloads hold no addresses / reprs.
 """
+import math
 import usim
 from usim import (time, eternity, instant, Scope, until, Flag, Tracked, Lock, Queue, Channel,
                   StreamClosed, Capacities, Resources, ResourcesUnavailable, Pipe,
@@ -464,7 +465,10 @@ class Interp:
                     async for v in s:
                         ev(name, idx, 'got', v)
                         cnt += 1
-                        if gap:
+                        if gap == 'tick':
+                            # paced by absolute dates: work until the next whole tick of the clock
+                            await (time >= math.floor(time.now) + 1)
+                        elif gap:
                             await (time + num(gap))
                         if n is not None and cnt >= n:
                             break
